@@ -1,15 +1,16 @@
 import PhyModel.Drv.Core
 import PhyModel.Drv.Sampling
+import PhyModel.Drv.C10
 /-! Line-protocol driver: one JSON request per line on stdin, one JSON answer per line on stdout.
 Run with `lake env lean --run Driver.lean` or as the native executable `driver`.  Requests the
 model does not understand are answered `{"err": ...}`, never defaulted.  Every handler module under
 `PhyModel/Drv/` contributes one entry to `handlers`. -/
 open Lean PhyModel PhyModel.Drv
 
-def handlers : List Handler := [
-  handleCore,
-  handleSampling
-]
+def handlers : List Handler :=
+  [handleCore]
+  ++ [handleSampling]
+  ++ [handleC10]
 
 def handle (j : Json) : Except String Json := do
   let op ← j.getObjValAs? String "op"
